@@ -5,7 +5,8 @@
 EXTENDS AeroTable, Integers, Sequences
 
 AbsV(x) == IF x < 0 THEN -x ELSE x
-Within01pct(x, t) == AbsV(x - t) * 1000 <= t                 \* 0.1 %
+\* 0.1 %; the first conjunct keeps the product inside TLC's 32-bit integers when an observation is wildly off
+Within01pct(x, t) == AbsV(x - t) <= 2000000 /\ AbsV(x - t) * 1000 <= t
 Rel1e6(a, b) == AbsV(a - b) <= (b \div 1000000) + 1          \* 1e-6 relative (+1 unit of projection)
 
 \* e.k: table row (H = -500 + 500 (k-1) m); e.p in 0.01 Pa, e.rho in 1e-7 kg/m3, e.T in mK
@@ -15,6 +16,11 @@ V_aero_isa(e) ==
   ELSE IF ~Within01pct(e.rho, t[2]) THEN "isa_density_off_by_more_than_0.1_percent"
   ELSE IF ~Within01pct(e.T, t[3]) THEN "isa_temperature_off_by_more_than_0.1_percent"
   ELSE "ok"
+
+\* the same for an altitude buffer updated in place between the evaluations (e.steps: one ISA observation per step)
+V_aero_track(e) ==
+  LET bad == {i \in 1..Len(e.steps) : V_aero_isa(e.steps[i]) # "ok" \/ e.steps[i].same # 1} IN
+  IF bad = {} THEN "ok" ELSE "isa_of_an_updated_altitude_buffer_is_stale"
 
 \* values just below / just above 11 000 m (p in 1e-4 Pa, rho in 1e-9, T in 1e-6 K)
 V_aero_tropopause(e) ==
